@@ -427,6 +427,20 @@ func (r *rig) run(c Case) Obs {
 		} else {
 			o.HasRet, o.Returned = true, r.indices(out)
 		}
+	case "rpcpin-preset":
+		// what adder.Pin sends: the pin object with its allocations filled in
+		in := api.PinWithOpts(theCid, api.PinOptions{Name: "new", ReplicationFactorMin: c.Min, ReplicationFactorMax: c.Max})
+		in.Allocations = r.peers(c.Prio)
+		var out api.Pin
+		var err error
+		o.Panic = recovered(func() {
+			err = r.p.API.Client.CallContext(r.ctx, "", "Cluster", "Pin", in, &out)
+		})
+		if err != nil {
+			o.Failed, o.Err = true, err.Error()
+		} else {
+			o.HasRet, o.Returned = true, r.indices(out.Allocations)
+		}
 	case "remove":
 		var err error
 		o.Panic = recovered(func() { err = r.p.C.PeerRemove(r.ctx, r.pids[c.Excluded]) })
